@@ -295,6 +295,21 @@ Definition increment_stats {V} (vadd : V -> V -> V) (k : entry) (v : V) (initial
 Definition return_stats {V} (hooks : list (hook V)) : dict V :=
   fold_left (fun acc h => dict_update acc (h_stats h)) hooks [].
 
+(* a hook object driven by a script of calls (used for the exact correspondence with core/hooks.py) *)
+Inductive op :=
+| ORefresh (step : option (option Z))                    (* any pre_*/post_* callback of the base class *)
+| OAdd (k : entry) (v : Z)                               (* add_to_stats(value=v, **k) *)
+| OIncr (k : entry) (v : Z) (initialize : option Z).     (* increment_stats(value=v, initialize=..., **k) *)
+
+Definition run_op (h : hook Z) (o : op) : hook Z :=
+  match o with
+  | ORefresh s => hook_refresh s h
+  | OAdd k v => add_to_stats k v h
+  | OIncr k v i => increment_stats Z.add k v i h
+  end.
+
+Definition run_ops (ops : list op) : hook Z := fold_left run_op ops hook_init.
+
 (* what a hook sees of a step in post_step(step, level_number=0) *)
 Record step_view := SV {
   sv_slot : Z; sv_rank : option Z; sv_time : Z; sv_tend : Z;   (* L.time and the float L.time + L.dt *)
